@@ -966,7 +966,11 @@ func (p *parser) parseFuncClauses(fc *FuncContract) error {
 				ac.At = "call"
 			case "return":
 				ac.At = "return"
-				ac.K, _ = strconv.Atoi(p.next().text)
+				if t := p.next(); t.text == "last" {
+					ac.K = -1 // the last return statement in source order (usually the success return)
+				} else {
+					ac.K, _ = strconv.Atoi(t.text)
+				}
 			case "loop":
 				ac.At = "loophead"
 				ac.K, _ = strconv.Atoi(p.next().text)
